@@ -449,3 +449,45 @@ package sipsp
 //@     decreases dOffs - o
 //@   ensures ok ==> 0 <= o && o <= len(buf) && 0 <= nxt && o+nxt <= len(buf)
 //@   ensures[C20] "sound": ok ==> ip4At(buf, o) && nxt == ip4End(buf, o)
+
+// ---- list objects: Reset (C12) ----
+
+//@ func (*PContacts).Reset(c) ()
+//@   requires c != nil && contWF(c)
+//@   modifies *c, c.Vals[*]
+//@   loop 0 "for i := 0; i < len(c.Vals) && i <= c.N; i++"
+//@     invariant 0 <= i && i <= len(c.Vals) && i <= c.N+1 && c.N == c_old.N && sameSlice(c.Vals, c_old.Vals) && blockSep(c, c.Vals)
+//@     invariant forall(k, 0, i, fbZero(&c.Vals[k])) && forall(k, c.N+1, len(c.Vals), fbZero(&c.Vals[k]))
+//@     decreases len(c.Vals) - i
+//@   ensures[C12,*] "vals-kept": sameSlice(c.Vals, c_old.Vals)
+//@   ensures[C12,*] "all-zero": contAllZero(c)
+
+//@ func (*URIParamsLst).Reset(l) ()
+//@   requires l != nil && uparWF(l)
+//@   modifies *l, l.Params[*]
+//@   loop 0 "for i := 0; i < len(l.Params) && i <= l.N; i++"
+//@     invariant 0 <= i && i <= len(l.Params) && i <= l.N+1 && l.N == l_old.N && sameSlice(l.Params, l_old.Params) && blockSep(l, l.Params)
+//@     invariant forall(k, 0, i, uriParamZero(&l.Params[k])) && forall(k, l.N+1, len(l.Params), uriParamZero(&l.Params[k]))
+//@     decreases len(l.Params) - i
+//@   ensures[C12,*] "kept": sameSlice(l.Params, l_old.Params)
+//@   ensures[C12,*] "all-zero": l.N == 0 && l.Types == 0 && l.tmp == URIParam{} && forall(k, 0, len(l.Params), uriParamZero(&l.Params[k]))
+
+//@ func (*URIHdrsLst).Reset(l) ()
+//@   requires l != nil && uhdrWF(l)
+//@   modifies *l, l.Hdrs[*]
+//@   loop 0 "for i := 0; i < len(l.Hdrs) && i <= l.N; i++"
+//@     invariant 0 <= i && i <= len(l.Hdrs) && i <= l.N+1 && l.N == l_old.N && sameSlice(l.Hdrs, l_old.Hdrs) && blockSep(l, l.Hdrs)
+//@     invariant forall(k, 0, i, uriHdrZero(&l.Hdrs[k])) && forall(k, l.N+1, len(l.Hdrs), uriHdrZero(&l.Hdrs[k]))
+//@     decreases len(l.Hdrs) - i
+//@   ensures[C12,*] "kept": sameSlice(l.Hdrs, l_old.Hdrs)
+//@   ensures[C12,*] "all-zero": l.N == 0 && l.tmp == URIHdr{} && forall(k, 0, len(l.Hdrs), uriHdrZero(&l.Hdrs[k]))
+
+//@ func (*HdrLst).Reset(hl) ()
+//@   requires hl != nil && blockSep(hl, hl.Hdrs)
+//@   modifies *hl, hl.Hdrs[*]
+//@   loop 0 "for i := 0; i < len(hdrs); i++"
+//@     invariant 0 <= i && i <= len(hdrs) && sameSlice(hdrs, hl_old.Hdrs) && forall(k, 0, i, hdrZero(&hdrs[k]))
+//@     invariant hl.PFlags == 0 && hl.N == 0 && hl.Hdrs == nil && hl.hdr == Hdr{} && forall(k, 0, 13, hl.h[k] == Hdr{})
+//@     decreases len(hdrs) - i
+//@   ensures[C12,*] "kept": sameSlice(hl.Hdrs, hl_old.Hdrs)
+//@   ensures[C12,*] "all-zero": hl.PFlags == 0 && hl.N == 0 && hl.hdr == Hdr{} && forall(k, 0, 13, hl.h[k] == Hdr{}) && forall(k, 0, len(hl.Hdrs), hdrZero(&hl.Hdrs[k]))
